@@ -37,6 +37,7 @@ from .values import (
     CallbackVal,
     DObj,
     ElemRef,
+    ExtObj,
     Func,
     IntSeq,
     LObj,
@@ -170,6 +171,24 @@ def term_factor(t, depth):
     return 1
 
 
+def mark_range(ex, t, lo, hi):
+    """remember that lo <= t <= hi is a fact of the path condition (type invariant of an IntRange value)"""
+    ex.__dict__.setdefault('known_ranges', {})[t.get_id()] = (lo, hi)
+    ex.keep.append(t)
+
+
+def in_known_range(ex, v, lo, hi):
+    """cheap, sound: is the value syntactically known to lie within lo..hi"""
+    if isinstance(v, bool):
+        return lo <= int(v) <= hi
+    if isinstance(v, int):
+        return lo <= v <= hi
+    if not (isinstance(v, Sym) and v.k == 'int') or ex.quant:
+        return False
+    r = term_range(ex, v.t, 0)
+    return r is not None and lo <= r[0] and r[1] <= hi
+
+
 def term_range(ex, t, depth):
     """cheap syntactic interval of an integer term built from known bytes and constants
     (sound: None when nothing is known)"""
@@ -180,6 +199,11 @@ def term_range(ex, t, depth):
         return (c, c)
     if t.get_id() in ex.__dict__.get('known_bytes', ()):
         return (0, 255)
+    kr = ex.__dict__.get('known_ranges')
+    if kr:
+        r = kr.get(t.get_id())
+        if r is not None:
+            return r
     if not z3.is_app(t):
         return None
     k = t.decl().kind()
@@ -246,8 +270,8 @@ def read_byte(ex, seq_t, idx_t):
     if hit is not None:
         return hit
     # a read at a position the simplifier can resolve (unit inside a concatenation) needs no name
-    if ci is not None and z3.is_app(seq_t) and seq_t.decl().kind() == z3.Z3_OP_SEQ_CONCAT:
-        direct = _unit_at(seq_t, ci)
+    if ci is not None and z3.is_app(seq_t) and seq_t.decl().kind() in (z3.Z3_OP_SEQ_CONCAT, z3.Z3_OP_SEQ_UNIT):
+        direct = _unit_at(seq_t, ci, ex)
         if direct is not None:
             r = mk_int(direct)
             if isinstance(r, Sym):
@@ -267,24 +291,32 @@ def read_byte(ex, seq_t, idx_t):
     return r
 
 
-def _unit_at(t, i):
+def _unit_at(t, i, ex=None):
     """element i of a concatenation whose first i+1 parts are unit sequences, else None"""
-    parts = []
-    stack = [t]
-    while stack:
-        x = stack.pop()
-        if z3.is_app(x) and x.decl().kind() == z3.Z3_OP_SEQ_CONCAT:
-            stack.extend(reversed(x.children()))
-            continue
-        parts.append(x)
-        if len(parts) > i:
+    cache = ex.__dict__.setdefault('flat_cache', {}) if ex is not None else None
+    ent = cache.get(t.get_id()) if cache is not None else None
+    if ent is None:
+        # flattened leading run of unit parts (their element terms), computed once per sequence term
+        elems = []
+        stack = [t]
+        while stack:
+            x = stack.pop()
+            if z3.is_app(x):
+                k = x.decl().kind()
+                if k == z3.Z3_OP_SEQ_CONCAT:
+                    stack.extend(reversed(x.children()))
+                    continue
+                if k == z3.Z3_OP_SEQ_UNIT:
+                    elems.append(x.arg(0))
+                    continue
             break
-    if len(parts) <= i:
+        ent = elems
+        if cache is not None:
+            cache[t.get_id()] = ent
+            ex.keep.append(t)
+    if i >= len(ent):
         return None
-    for p in parts[: i + 1]:
-        if not (z3.is_app(p) and p.decl().kind() == z3.Z3_OP_SEQ_UNIT):
-            return None
-    return parts[i].arg(0)
+    return ent[i]
 
 
 def name_int(ex, v, hint='t'):
@@ -421,6 +453,8 @@ def subscript(ex, o, i):
             return dict_getitem(ex, o, ho, i)
         if isinstance(ho, MObj):
             return map_getitem(ex, o, ho, i)
+        if isinstance(ho, ExtObj):
+            return ho.ext_subscript(ex, o, i)
         if isinstance(ho, Obj):
             return obj_special(ex, o, '__getitem__', [i])
     if isinstance(o, (bytes, bytearray)) and isinstance(i, int):
@@ -885,6 +919,11 @@ def equal(ex, a, b):
         if oa.sym is not None and ob.sym is not None and oa.sym.k == ob.sym.k:
             return mk_bool(oa.sym.t == ob.sym.t)
         sa, sb = list_as_sym(ex, a), list_as_sym(ex, b)
+        # an empty concrete list has no element kind of its own: it takes the kind of the other side
+        if sa is None and sb is not None and not oa.items:
+            sa = list_as_sym(ex, a, sb.k[1])
+        if sb is None and sa is not None and not ob.items:
+            sb = list_as_sym(ex, b, sa.k[1])
         if sa is not None and sb is not None and sa.k == sb.k:
             return mk_bool(sa.t == sb.t)
         raise Unsupported('list equality with mixed spines')
@@ -1076,13 +1115,21 @@ def binop(ex, op, a, b):
     raise Unsupported(f'binop {type(op).__name__} on {a!r}, {b!r}')
 
 
+_REPEAT_FUNCS = {}
+
+
 def bytes_repeat(ex, pat, n):
     """pat * n for symbolic n: a fresh string constrained by length and (for a
     single repeated byte) by content"""
     if len(pat) != 1:
         raise Unsupported('repeat of multi-byte pattern a symbolic number of times')
-    r = ex.fresh_sym('bytes', 'rep')
-    nt = zint(n)
+    # the string is a *function* of the count (so that equal counts give equal strings by congruence), defined by its
+    # length and its elements: a conservative definition, instantiated for this count
+    nt = z3.simplify(zint(n))
+    f = _REPEAT_FUNCS.get(pat[0])
+    if f is None:
+        f = _REPEAT_FUNCS[pat[0]] = z3.Function(f'repeat_{pat[0]}', z3.IntSort(), IntSeq)
+    r = Sym(f(nt), 'bytes')
     i = z3.Int(ex.fresh_name('ri'))
     ex.add_def(z3.Length(r.t) == zmax(nt, z3.IntVal(0)))
     ex.add_def(z3.ForAll([i], z3.Implies(z3.And(i >= 0, i < z3.Length(r.t)), r.t[i] == pat[0])))
@@ -1292,7 +1339,15 @@ def _int_binop(ex, op, a, b):
         return r
     if t is ast.RShift:
         if cb is None:
-            raise Unsupported('shift by symbolic amount')
+            # symbolic amount: exact for 0 <= amount < 64 (case distinction over divisions by constants)
+            if not ex.branch(mk_bool(y >= 0)):
+                ex.raise_(ValueError, 'negative shift count')
+            if not ex.branch(mk_bool(y < 64)):
+                raise Unsupported('right shift by a symbolic amount that may be >= 64')
+            r = x / (1 << 63)
+            for k in range(62, -1, -1):
+                r = z3.If(y == k, x / (1 << k), r)
+            return mk_int(r)
         if cb < 0:
             ex.raise_(ValueError, 'negative shift count')
         return mk_int(x / (1 << cb))
@@ -1371,6 +1426,12 @@ def bv_op(ex, t, a, b):
                 kb = max(cv.bit_length(), 1)
                 if kb not in ks:
                     ks.append(kb)
+            # a power of two that syntactically divides u (e.g. 16384 + 4096*p): u's low bits are zero
+            fu = term_factor(u, 0)
+            if fu > 1:
+                kf = (fu & -fu).bit_length() - 1
+                if kf > 0 and kf not in ks:
+                    ks.append(kf)
             for k in ks:
                 if ex.proves(z3.And(u % (1 << k) == 0, v >= 0, v < (1 << k))):
                     r = mk_int(u + v)
